@@ -272,7 +272,8 @@ class FakeClient:
 
     def __init__(self, s3, sched, plan=NO_FAULTS, rcc='when_required',
                  body_read_size=None, name='client', validate=True,
-                 body_protocols=None, stream_pattern='full'):
+                 body_protocols=None, stream_pattern='full', http=False):
+        self.http = http            # plain-http endpoint: checksum in a header, computed before the request exists
         self.s3 = s3
         self.sched = sched
         self.plan = plan
@@ -567,6 +568,9 @@ class FakeClient:
                           [last handlers] read* (send)
           when_supported: body is wrapped in AwsChunkedWrapper before the
                           request-created event; no pre-read; read* (send)
+          when_supported over a plain http:// endpoint: the checksum goes into a header and is
+                          computed ONCE, before the request-created event of the first attempt:
+                          tell, read*, seek(0); after that every attempt looks like when_required
           retry         : seek(0) on the body, then the whole attempt again.
         """
         s = self.sched
@@ -581,6 +585,18 @@ class FakeClient:
         rd = self.body_read_size
         attempts = 0
         reads_log = rec.setdefault('body_ops', [])
+        if self.http and rcc == 'when_supported':
+            s.emit('body.phase', call=rec['id'], phase='checksum')
+            body.tell()
+            reads_log.append('tell')
+            while True:
+                d = body.read(rd) if rd else body.read()
+                reads_log.append(('p', len(d)))
+                if not d:
+                    break
+            body.seek(0)
+            reads_log.append('seek0')
+            rcc = 'when_required'          # the attempts themselves follow that protocol
         while True:
             attempts += 1
             if rcc == 'when_supported':
@@ -588,6 +604,7 @@ class FakeClient:
             else:
                 req = FakeRequest(body)
             events.emit_phase('first', evname, request=req, operation_name=opname)
+            s.emit('body.phase', call=rec['id'], phase='checksum')
             if rcc != 'when_supported':
                 body.tell()
                 reads_log.append('tell')
@@ -603,6 +620,7 @@ class FakeClient:
                 reads_log.append('seek0')
             events.emit_phase('mid', evname, request=req, operation_name=opname)
             events.emit_phase('last', evname, request=req, operation_name=opname)
+            s.emit('body.phase', call=rec['id'], phase='send')
             # send
             data = b''
             retry = False
@@ -635,4 +653,5 @@ class FakeClient:
                 reads_log.append('reset')
                 continue
             rec['attempts'] = attempts
+            s.emit('body.phase', call=rec['id'], phase='done')
             return data
